@@ -28,6 +28,9 @@ func (x *Engine) setupConc(fr *Frame, st *State, fs *FuncSpec) {
 		if !seen[v.Addr.Key] {
 			seen[v.Addr.Key] = true
 			x.sharedKeys = append(x.sharedKeys, v.Addr.Key)
+			// written(loc): which shared locations this call has stored to so far (nothing at entry)
+			x.regComp(wrKey(v.Addr.Key), wrSort)
+			st.h[wrKey(v.Addr.Key)] = wrNone
 		}
 	}
 	x.onWrite = func(st *State, a *Addr, prev, nv, cond, pos string) {
@@ -60,6 +63,46 @@ func (x *Engine) setupConc(fr *Frame, st *State, fs *FuncSpec) {
 			x.obligeNoAssume(st, "onwrite", fmt.Sprintf("%s#%d", c.Label, x.ordinals["onwrite:"+c.Label]), goal, c.Text+" (atomic write at "+pos+")", pos)
 		}
 	}
+}
+
+// The ghost component behind written(loc): per shared state component, the set of (object, element) pairs this call
+// has successfully stored to through sync/atomic. It starts empty, grows at every atomic store / add / successful
+// compare-and-swap, and is forgotten (arbitrary) wherever the component itself is summarised — at a loop head whose
+// body writes the component, after an un-annotated loop, after a callee known only by a contract that may modify it —
+// so a clause can only rely on writes the engine has actually followed.
+const wrSort = "(Array Int (Array Int Bool))"
+const wrNone = "((as const (Array Int (Array Int Bool))) ((as const (Array Int Bool)) false))"
+
+func wrKey(k string) string { return "$wr:" + k }
+
+// setupWritten: in the one-thread pass the locations declared shared are tracked as well (written() means the same
+// there; nothing interferes)
+func (x *Engine) setupWritten(fr *Frame, st *State, fs *FuncSpec) {
+	for _, c := range fs.Shared {
+		ev := &Eval{x: x, st: st, old: st, env: fr.env, pkg: fr.fn.Pkg}
+		v, ok := x.trySafeEval(ev, c)
+		if !ok || v.Addr == nil {
+			continue
+		}
+		if _, seen := st.h[wrKey(v.Addr.Key)]; !seen {
+			x.regComp(wrKey(v.Addr.Key), wrSort)
+			st.h[wrKey(v.Addr.Key)] = wrNone
+		}
+	}
+}
+
+func (x *Engine) markWritten(st *State, a *Addr, cond string) {
+	k := wrKey(a.Key)
+	if _, ok := x.compSort[k]; !ok {
+		return
+	}
+	idx := "0"
+	if a.Idx != "" {
+		idx = a.Idx
+	}
+	w := x.get(st, k)
+	row := fmt.Sprintf("(select %s %s)", w, a.Ref)
+	x.set(st, k, fmt.Sprintf("(store %s %s (store %s %s (or %s (select %s %s))))", w, a.Ref, row, idx, cond, row, idx))
 }
 
 func (x *Engine) concObligations(fr *Frame, fs *FuncSpec, ret *State, env map[string]Val, pkg *ssa.Package) {
